@@ -207,7 +207,7 @@ def xwsSize (tok : String) : Nat :=
 
 /-- the implementation's results of a session against the expected ones, when messages of a back-to-back burst may
 have been dropped by a full send buffer (known finding): `some k` = the results are the expected ones with `k`
-burst messages missing, each of them written while at least 1 MiB of the burst was already queued, and `k` reads
+burst messages missing, each of them too large for what the 1 MiB send buffer could still hold, and `k` reads
 that timed out at the end; `none` = anything else -/
 def matchDropped : List (String × Bool) → List String → Nat → Option Nat
   | [], got, k => if got.length == k && got.all (· == "c:timeout") then some k else none
@@ -291,10 +291,11 @@ def step (oracleMode : Bool) (_st : Unit) (line : String) : Unit × String :=
     | "xws" :: msgs =>
       match msgs.mapM xwsExpect with
       | some exp =>
-        -- a burst message is "droppable" when at least 1 MiB of the burst had been written before it
+        -- a burst message is "droppable" when it does not fit the 1 MiB send buffer together with what the burst
+        -- has written before it (whether earlier messages have been acknowledged by then is a matter of timing)
         let sizes := msgs.map fun t => if t.startsWith "b" then xwsSize t else 0
         let before := (sizes.foldl (fun (acc : List Nat × Nat) n => (acc.1 ++ [acc.2], acc.2 + n)) ([], 0)).1
-        let droppable := (msgs.zip before).map fun (t, b) => t.startsWith "b" && b ≥ 1048576
+        let droppable := (msgs.zip (before.zip sizes)).map fun (t, b, n) => t.startsWith "b" && b + n + 10 > 1048576
         if oracleMode then
           if goOut == " ".intercalate exp then "ok"
           else match matchDropped (exp.zip droppable) (goOut.splitOn " ") 0 with
